@@ -120,6 +120,32 @@ func VerifHarness_ListingHoldsLocks() {
 	}
 }
 
+// DisconnectAll while another player logs in or leaves: it returns (no goroutine is waited for that was
+// never started, none is started that is not waited for), it does not crash, and everybody who was
+// online throughout is disconnected.
+func VerifHarness_DisconnectAllDuringJoinLeave() {
+	zz.MaxPreempt(2)
+	w := newZZListWorld(1 + zz.Choose(2))
+	p := w.p
+	join := zz.Bool()
+	zz.Go(func() { p.DisconnectAll(nil) })
+	zz.Go(func() {
+		if join {
+			q := w.player(9)
+			_ = p.registerConnection(q)
+		} else {
+			w.pls[0].teardown()
+		}
+	})
+	zz.WaitAll()
+	for i, pl := range w.pls {
+		if join || i > 0 {
+			zz.Assert(!pl.Active(), "DisconnectAll left a player connected who was online all the time")
+		}
+	}
+	zz.Reach("disconnect-all-concurrent")
+}
+
 // A lister racing with a join and a leave (every interleaving at lock operations, <=2 preemptions):
 // the lockset monitor reports any registry access outside its lock, and the returned list is one
 // consistent moment: it contains every player that stayed online throughout and nobody twice.
